@@ -9,6 +9,12 @@ package test
 //       names (n0, e0, s0, i0, pi0, path, depth), with each other across the variable/parameter namespaces -
 //       changes only output aliases and parameter keys, never the rest of the statement, and never turns a
 //       translatable query into an error or a crash.
+// Extended (see the comment block below the test) by: parameter values of every Go type in every position (also
+// through Parameter.Value; nothing nested may change), determinism across history against reference outputs of FRESH
+// PROCESSES (failing and succeeding queries mixed, Translate+Translated and FromCypher, ordered pairs and 8
+// goroutines on one kind mapper), hostile spellings of user names (backticks, '$', parameter names, generated names,
+// letter case) and aliases equal to generated names as ORDER BY keys, each against the twin query with fresh names.
+// Deviation classes named in VERIF_KNOWN ("|"-separated) are counted under "known_deviation_hits".
 
 import (
 	"context"
@@ -417,7 +423,13 @@ func TestVerifBoundedTranslate(t *testing.T) {
 //  4. orderby-*   (C06) aliases reused as ORDER BY keys before and after WITH, equal to generated names.
 //
 // Known-deviation classes (env VERIF_KNOWN, "|"-separated) are counted under "known_deviation_hits" instead of
-// "failures"; nothing is suppressed in the code.
+// "failures" (first input of each under "known_deviation_examples"); nothing is suppressed in the code. Class names:
+//   param-panic, param-hang, param-mutated, param-nil-slice-replaced (the only change is a nil slice that became an
+//   empty one), param-nondeterministic, param-cyclic-crash (a value that contains itself kills the process);
+//   history-panic, history, history-concurrent, history-params-mutated;
+//   names-backtick@<shape>, names-case-variant@<shape> (the violation disappears when the names are moved apart so
+//   that no two differ only in case), names-backtick-same-variable (`n` and n in one query);
+//   orderby-generated-alias@<shape>.            <shape> is the tag of the query template (vxNameShapes, vxOrderByShapes)
 // =====================================================================================================================
 
 const vxCallLimit = 30 * time.Second
@@ -1208,7 +1220,7 @@ func vxHistoryClass(x *vxState) string {
 	// a memo in the kind mapper that is written without synchronisation (two fields, last request and its answer)
 	// gave about 9 wrong statements in the 60000 concurrent translations of 100 rounds when tried (two runs), so
 	// such a defect is missed with probability about e^-9
-	rounds := 100 * x.bound
+	rounds := min(100+50*(x.bound-1), 600)
 	type mismatch struct {
 		j   int
 		got string
